@@ -363,6 +363,8 @@ static int c01_cmd (char *line)
       free (str);
       return 1;
     }
+  if (!strcmp (tok[0], "holder-expect"))
+    return 1;			/* annotation for the model: number of error-path tests of the next program */
   if (!strcmp (tok[0], "reent-expect"))
     return 1;			/* annotation for the model: number of re-entrancy tests of the next program */
   if (!strcmp (tok[0], "expect-abort"))
